@@ -260,34 +260,45 @@ end ArchSim.Pipe
 namespace ArchSim.Pipe
 open ArchSim ArchSim.Rv
 
+/-- TERMINATION, general form (any setting of the hazard flag; decode free of read-after-write
+    hazards along every fault-free run). -/
+theorem terminates_raw (st : St) (hzf : Bool) (hp : ProgOK st.imem) (hc : ICoh st.imem)
+    (hraw : ∀ n, runOK n (PSt.init st hzf) → ∀ m, m < n → RawFree (pipeRun m (PSt.init st hzf)))
+    (kstar : Nat)
+    (hh : singleDone (seqRun kstar st) = true ∨ (seqFault (seqRun kstar st)).isSome = true) :
+    ∃ N, N ≤ 5 * (kstar + 2) ∧
+      (¬ runOK N (PSt.init st hzf) ∨ isDone (pipeRun N (PSt.init st hzf)) = true) := by
+  have hI := PInv_init st hzf hp hc
+  have ha : abs (PSt.init st hzf) = st := abs_init st hzf
+  by_cases hr : runOK (5 * (kstar + 2)) (PSt.init st hzf)
+  · by_cases hd : ∃ m, m ≤ 5 * (kstar + 2) ∧ isDone (pipeRun m (PSt.init st hzf)) = true
+    · obtain ⟨m, hm, hdm⟩ := hd
+      exact ⟨m, hm, Or.inr hdm⟩
+    · exfalso
+      have hnd : ∀ m, m ≤ 5 * (kstar + 2) → isDone (pipeRun m (PSt.init st hzf)) = false := by
+        intro m hm
+        cases hq : isDone (pipeRun m (PSt.init st hzf)) with
+        | false => rfl
+        | true => exact absurd ⟨m, hm, hq⟩ hd
+      have h1 := progress_iter _ hI (kstar + 2) hr hnd
+      obtain ⟨k, hk, hsim, _⟩ := refine_run_bound_raw _ hI (absF_init st hzf) kstar (by rw [ha]; exact hh)
+        (5 * (kstar + 2)) hr (hraw _ hr) (fun m hm => hnd m (Nat.le_of_lt hm))
+      have h2 := abs_instrs_ge (pipeRun (5 * (kstar + 2)) (PSt.init st hzf))
+      rw [hsim.1.instrs, ha] at h2
+      have h3 := seqRun_instrs_le st hc k
+      have h4 : (PSt.init st hzf).st.instrs = st.instrs := rfl
+      omega
+  · exact ⟨_, Nat.le_refl _, Or.inl hr⟩
+
 /-- TERMINATION. If the sequential machine, started in `st`, is done or stuck at a fault after
     `kstar` steps, then the five-stage pipeline started in `st` has faulted or is done after at most
     `5 * (kstar + 2)` cycles. -/
 theorem terminates_init (st : St) (hp : ProgOK st.imem) (hc : ICoh st.imem) (kstar : Nat)
     (hh : singleDone (seqRun kstar st) = true ∨ (seqFault (seqRun kstar st)).isSome = true) :
     ∃ N, N ≤ 5 * (kstar + 2) ∧
-      (¬ runOK N (PSt.init st true) ∨ isDone (pipeRun N (PSt.init st true)) = true) := by
-  have hI := PInv_init st true hp hc
-  have ha : abs (PSt.init st true) = st := abs_init st true
-  by_cases hr : runOK (5 * (kstar + 2)) (PSt.init st true)
-  · by_cases hd : ∃ m, m ≤ 5 * (kstar + 2) ∧ isDone (pipeRun m (PSt.init st true)) = true
-    · obtain ⟨m, hm, hdm⟩ := hd
-      exact ⟨m, hm, Or.inr hdm⟩
-    · exfalso
-      have hnd : ∀ m, m ≤ 5 * (kstar + 2) → isDone (pipeRun m (PSt.init st true)) = false := by
-        intro m hm
-        cases hq : isDone (pipeRun m (PSt.init st true)) with
-        | false => rfl
-        | true => exact absurd ⟨m, hm, hq⟩ hd
-      have h1 := progress_iter _ hI (kstar + 2) hr hnd
-      obtain ⟨k, hk, hsim, _⟩ := refine_run_bound _ hI rfl (absF_init st true) kstar (by rw [ha]; exact hh)
-        (5 * (kstar + 2)) hr (fun m hm => hnd m (Nat.le_of_lt hm))
-      have h2 := abs_instrs_ge (pipeRun (5 * (kstar + 2)) (PSt.init st true))
-      rw [hsim.1.instrs, ha] at h2
-      have h3 := seqRun_instrs_le st hc k
-      have h4 : (PSt.init st true).st.instrs = st.instrs := rfl
-      omega
-  · exact ⟨_, Nat.le_refl _, Or.inl hr⟩
+      (¬ runOK N (PSt.init st true) ∨ isDone (pipeRun N (PSt.init st true)) = true) :=
+  terminates_raw st true hp hc
+    (fun n hr => rawFree_run_of_hazard _ (PInv_init st true hp hc) rfl n hr) kstar hh
 
 end ArchSim.Pipe
 
